@@ -2354,3 +2354,28 @@ example (v : Fin 2 → ℝ) :
   refine ⟨(ContinuousLinearMap.proj (R := ℝ) (φ := fun _ : Fin 2 => ℝ) 0).hasFDerivAt, ?_, hasDerivAt_const _ _⟩
   have := (hasDerivAt_id (v 0)).mul (hasDerivAt_id (v 0))
   exact C02.hasDerivAt_of_eq this (fun y => rfl) (by simp)
+
+/-! ## Round 4: a signal PDF product under `SigOverBkgPDFRatio` -/
+
+/-- **`PDFProduct.get_pd` → `SigOverBkgPDFRatio.get_gradient`**: the signal density is a product `s₁·s₂`
+(`SignalPDFProduct`), `has1` / `has2` say which factor's gradient dictionary has the fit parameter's key (honest: an
+absent key means derivative 0), the background is positive and parameter-independent: the gradient the ratio returns
+from the product-rule entry `productGrad has1 has2 s₁ s₂ ds₁ ds₂` (the code's `pd1*grad2 + pd2*grad1`, `pd2*grad1`,
+`pd1*grad2`, absent) is the derivative of the returned ratio `ratioSOB zb (s₁ s₂) b` — in particular when **both**
+factors depend on the same fit parameter. -/
+theorem c02_pdf_product_under_sob (zeroBkg : ℝ) (has1 has2 : Bool) (s1 s2 b : ℝ → ℝ) (ds1 ds2 q : ℝ) (hb : 0 < b q)
+    (h1 : HasDerivAt s1 ds1 q) (h2 : HasDerivAt s2 ds2 q) (hbd : HasDerivAt b 0 q)
+    (hd1 : has1 = false → ds1 = 0) (hd2 : has2 = false → ds2 = 0) :
+    HasDerivAt (fun t => ratioSOB zeroBkg (s1 t * s2 t) (b t))
+      (sobGrad (has1 || has2) false (s1 q * s2 q) (b q) (productGrad has1 has2 (s1 q) (s2 q) ds1 ds2) 0) q := by
+  have hp := c02_product_rule has1 has2 s1 s2 ds1 ds2 q h1 h2 hd1 hd2
+  refine c02_sob_value_grad zeroBkg (has1 || has2) false (fun t => s1 t * s2 t) b _ 0 q hb hp hbd ?_ (fun _ => rfl)
+  intro hh
+  simp only [Bool.or_eq_false_iff] at hh
+  simp [productGrad, hh.1, hh.2]
+
+/-- the swapped form `pd1*grad1 + pd2*grad2` is not what the model (and the product rule) gives: densities `2, 3`
+with gradients `5, 7` -/
+theorem c02_pdf_product_swapped_differs :
+    productGrad true true (2 : ℝ) 3 5 7 = 29 ∧ (2 : ℝ) * 5 + 3 * 7 ≠ 29 := by
+  constructor <;> norm_num [productGrad]
